@@ -17,6 +17,10 @@ Bounded exhaustive exploration of boot_noise_ceiling / cv_noise_ceiling / pool_r
   sets_k_fold with 4..12 rdm groups (every remainder n_groups mod k_rdm), each fold on its own;
 * every ordered pair of methods in two consecutive calls on ONE RDMs object; every call must leave
   its arguments bit-identical;
+* the ceilings stored by eval_bootstrap / _rdm / _pattern, bootstrap_crossval and eval_dual_bootstrap
+  (eval_fixed and crossval are covered above) per OBSERVED resample (recording wrappers around
+  bootstrap_sample* / sets_k_fold in inference.evaluate, draws enumerated through the RNG environment)
+  with rdm descriptor groups that hold several RDMs;
 * the other measures the routines accept (spearman, kendall, tau-b, tau-a; euclid / neg_riem_dist in
   pool_rdm): structural clauses only, pool_rdm of both modules against the reference pool.
 
@@ -45,7 +49,9 @@ RULE = ('One evaluation = one execution of library code judged by the reference:
         'ceil_set None, whose per-fold ceilings are each compared with the reference at that fold\'s TEST '
         'conditions; additionally for the sets of every other generator), under one fully specified sequence '
         'of random draws; the reference prediction of a fold always pools the REMAINING rdm groups (complement of '
-        'the fold\'s test groups), not whatever the training set holds; (seq) one pair of consecutive '
+        'the fold\'s test groups), not whatever the training set holds; (ev) one call of an evaluation routine (N = 2 resamples) under one '
+        'fully specified draw history, every stored bound judged against the reference ceiling of the observed '
+        'resample; (seq) one pair of consecutive '
         'noise-ceiling calls with two methods on one RDMs object. Around every such call the caller-owned '
         'arguments are fingerprinted and must be bit-identical afterwards. Stacks: all ordered stacks of 2 '
         '(thorough: 3; quick: strided triples) vectors over {0,1,2}^3; a strided subset of ordered pairs over '
@@ -101,6 +107,12 @@ BOUNDS = {
                                    'every partition x 3 masks, cv generators loo_rdm / k_fold_rdm / k_fold / k_fold_pattern / '
                                    'loo_pattern; pool_rdm of util.inference_util and util.pooling for every measure they '
                                    'accept (euclid / neg_riem_dist: plain mean; unknown measure refused)',
+        'evaluation routines': 'eval_bootstrap, eval_bootstrap_rdm, eval_bootstrap_pattern (boot_noise_ceil on / off), '
+                               'bootstrap_crossval (boot_type both / rdm / pattern, k_rdm 1 / 2), eval_dual_bootstrap (k_rdm 1 / 2); '
+                               'N = 2 resamples, 5-6 RDMs in 3 descriptor groups of up to 2 RDMs (and the default descriptor), 5 '
+                               'conditions; every draw history with <= 1 non-default answer for one method per setting, the '
+                               'all-default history for cosine, corr, rho-a, spearman; every stored per-resample bound against '
+                               'the reference leave-one-group-out (or cross-validated) ceiling of the OBSERVED resample',
         'call sequences': 'every ordered pair of the 5 methods on ONE RDMs object through boot_noise_ceiling, '
                           'cv_noise_ceiling, eval_fixed, crossval (n_rdm 2-4, n_cond 3-4, 2 fills); every '
                           'noise-ceiling / pool_rdm / crossval call of the whole check leaves its arguments bit-identical'},
@@ -114,6 +126,7 @@ BOUNDS = {
               'pattern-only sets through crossval(): k in {1,2,3,4}, n_cond 6,7,9,10,11,12,13',
         'k_fold with many groups': 'as quick, shuffled order for every (k_rdm, n_groups), 6 fills',
         'other accepted measures': 'as quick with 3 fills',
+        'evaluation routines': 'as quick with <= 2 non-default answers (eval_dual_bootstrap: 1)',
         'call sequences': 'as quick with 4 fills'},
 }
 
@@ -318,7 +331,11 @@ def shards(tier, seed):
     # that hold several RDMs
     for routine in EV_ROUTINES:
         for variant in (0, 1):
-            out.append({'kind': 'EV', 'routine': routine, 'variant': variant})
+            if thorough and routine == 'bootstrap_crossval':
+                for si in range(6):     # one shard per (boot_type, k_rdm): draws with <= 2 non-default answers
+                    out.append({'kind': 'EV', 'routine': routine, 'variant': variant, 'setting': si})
+            else:
+                out.append({'kind': 'EV', 'routine': routine, 'variant': variant})
     return out
 
 
@@ -420,6 +437,8 @@ def _shard_ev(shard, ctx):
     else:
         settings = [{'k_rdm': 1}, {'k_rdm': 2}]
     for si, setting in enumerate(settings):
+        if shard.get('setting', si) != si:
+            continue
         for desc in ('grp', 'index'):
             for mi, m in enumerate(PLAIN + ['spearman']):
                 if desc == 'index' and mi != (si + variant) % 3:
